@@ -45,6 +45,12 @@ pub fn run(c: &Case, out: &mut Out) {
     let faithful = ck.nv == snv && vk.nv == snv && ck.g == pp.g && ck.h == pp.h && vk.g == pp.g && vk.h == pp.h
         && ck.powers_of_g[..] == pp.powers_of_g[d..] && ck.powers_of_h[..] == pp.powers_of_h[d..] && vk.g_mask_random[..] == pp.g_mask[d..];
     out.obs1("trim_faithful", "S", if faithful { "yes".into() } else { "no".into() });
+    let c12 = c.has("c12");
+    if c12 {
+        crate::pc::ser_obs("pp", &pp, out);
+        crate::pc::ser_obs("ck", &ck, out);
+        crate::pc::ser_obs("vk", &vk, out);
+    }
     let n = c.usize1("n");
     for i in 0..n {
         let k = |s: &str| format!("{}.{}", s, i);
@@ -63,6 +69,7 @@ pub fn run(c: &Case, out: &mut Out) {
             out.obs1(&k("open"), "S", op.class());
             continue } };
         out.obs1(&k("c"), "R:base_g", hx(&cm.g_product));
+        if c12 && i < 2 { crate::pc::ser_obs(&format!("comm{}", i), &cm, out); }
         out.obs1(&k("c_nv"), "N", cm.nv.to_string());
         for (tag, m) in [("c", Compress::Yes), ("u", Compress::No)] {
             out.obs1(&format!("size.comm.{}.{}", i, tag), "N", cm.serialized_size(m).to_string());
@@ -72,6 +79,7 @@ pub fn run(c: &Case, out: &mut Out) {
         out.obs1(&k("open"), "S", op.class());
         let pf = match op.ok() { Some(x) => x, None => continue };
         out.obs(&k("pi"), "R:base_h", &pf.proofs.iter().map(hx).collect::<Vec<_>>());
+        if c12 && i < 2 { crate::pc::ser_obs(&format!("proof{}", i), &pf, out); }
         for (tag, m) in [("c", Compress::Yes), ("u", Compress::No)] {
             out.obs1(&format!("size.proof.{}.{}", i, tag), "N", pf.serialized_size(m).to_string());
             out.obs1(&format!("bytes.proof.{}.{}", i, tag), "N", ser_bytes(&pf, m == Compress::Yes).len().to_string());
